@@ -140,6 +140,17 @@ class CallGraph(object):
 
     def _resolve_name(self, f, name):
         """FuncInfo targets for a bare-name callee / reference."""
+        key = (f, name)
+        busy = self.__dict__.setdefault('_busy_names', set())
+        if key in busy:
+            return [], 'local'      # cyclic local aliases (a = b; b = a)
+        busy.add(key)
+        try:
+            return self._resolve_name_inner(f, name)
+        finally:
+            busy.discard(key)
+
+    def _resolve_name_inner(self, f, name):
         # nested function of this function or of an enclosing function
         parts = f.qualname.split('.')
         for i in range(len(parts), 0, -1):
